@@ -1,5 +1,5 @@
 // C11 — concurrent validations do not interfere.
-// E-sched: 2-3 threads calling the validation entry points on private inputs and shared types under the controlled
+// E-sched: 2-4 threads calling the validation entry points on private inputs and shared types under the controlled
 // scheduler (every pool / lock operation is a scheduling point, sync.Pool.Get answers are choice points); all
 // schedules within a preemption+deviation bound; every call must return its solo result, leave its arguments
 // unmodified, not panic or deadlock; the -race build checks every explored schedule with the Go race detector.
@@ -278,8 +278,8 @@ func run(c *runner.Ctx) {
 	}
 	menu := callMenu()
 	// solo results (scheduler inactive)
-	solo := make([][]string, 3)
-	for t := 0; t < 3; t++ {
+	solo := make([][]string, 4)
+	for t := 0; t < 4; t++ {
 		solo[t] = make([]string, len(menu))
 		for i, cl := range menu {
 			d.inner = valid.NewLRU()
@@ -512,7 +512,7 @@ func run(c *runner.Ctx) {
 		}
 	} else if !race {
 		if c.Thorough() {
-			plans = []plan{{"2x1-bound3", 2, 1, 3, true, cfgs}, {"3x1-bound2", 3, 1, 2, false, cfgs[:2]}, {"2x2-bound1", 2, 2, 1, true, cfgs[:2]}}
+			plans = []plan{{"2x1-bound3", 2, 1, 3, true, cfgs}, {"3x1-bound2", 3, 1, 2, false, cfgs[:2]}, {"2x2-bound1", 2, 2, 1, true, cfgs[:2]}, {"4x1-bound1", 4, 1, 1, false, cfgs[1:2]}}
 		} else {
 			plans = []plan{{"2x1-bound2", 2, 1, 2, true, cfgs}, {"3x1-bound1", 3, 1, 1, false, cfgs[:2]}, {"2x2-bound1", 2, 2, 1, false, cfgs[1:2]}}
 		}
@@ -564,11 +564,11 @@ func main() {
 	runner.Main(runner.Config{
 		Property:  "C11",
 		Technique: "stateless model checking of concurrent validation calls under a controlled scheduler with sync.Pool answers as choice points; solo-result oracle + Go race detector on every explored schedule",
-		Rule: "case = one harness (cache LRU(512)|LRU(1), cold|pre-warmed; 2-3 threads x 1-2 calls over an 11-call alphabet (incl. a rule name in a spelling no earlier execution used): Struct / ValidateStruct(tag b) / StructForFn / StructForFns / Struct(slice, groups, global fn) / " +
+		Rule: "case = one harness (cache LRU(512)|LRU(1), cold|pre-warmed; 2-4 threads x 1-2 calls over an 11-call alphabet (incl. a rule name in a spelling no earlier execution used): Struct / ValidateStruct(tag b) / StructForFn / StructForFns / Struct(slice, groups, global fn) / " +
 			"Var with a regex pattern new in every execution / Var with quoted rules / Map / Url / Struct on a struct type new in every execution); every schedule within the preemption+deviation bound is executed on the real code; " +
 			"per call: result = solo result, arguments unmodified; no panic/deadlock; race build: no race report; transitions = scheduling steps; non-trivial = harnesses in which a thread received a pooled object last used by another thread",
 		Assumptions: []string{"sequential consistency for race-free executions; race freedom checked by the race detector per schedule (happens-before edges inside the standard library's own pools are real and may hide a race: false negatives only)",
-			"2-3 threads; registration of global functions happens before the threads start"},
+			"2-4 threads; registration of global functions happens before the threads start"},
 		Run: run,
 		Modes: []runner.Mode{
 			{Name: "plain"},
